@@ -29,7 +29,7 @@ KS == IF Bits <= 4 THEN 1..(Order-1) ELSE {1, 2, 3, 5, 8, 9, Order \div 4, Order
 EOf(marks) == [i \in Sym |-> IF i \in marks THEN 1 ELSE 0]
 
 Check(n) ==
-  CASE n = 1  -> PrimitiveOK /\ BasisOK /\ (IsCantor => CantorOK)
+  CASE n = 1  -> PrimitiveOK /\ BasisOK /\ ToPolyOK /\ (IsCantor => CantorOK)
     [] n = 2  -> \A a, b \in Sym : Mul(a, b) = PMul(a, b)
     [] n = 3  -> /\ \A a \in Sym \ {0} : Mul(a, GInv(a)) = 1 /\ Div(a, a) = 1
                  /\ \A a \in Sym, b \in Sym \ {0} : Mul(Div(a, b), b) = a
